@@ -20,7 +20,10 @@ RULE = ("random 8x8x8 / 8x10x8 / 10x8x8 (stretched) grids, gridding='same', "
         "electric and magnetic, absolute and relative receivers; 1-2 sources "
         "x 1-2 frequencies x 2-3 receivers; observed data from a perturbed "
         "model, 1/3 with NaN gaps; noise as scalar / arrays / explicit std / "
-        "nf only / re only; directions dense / single cell / single component;"
+        "nf only / re only; base simulation in memory or file based, observed "
+        "data complete from the start or one source-frequency pair written in "
+        "place after a first gradient (then clean); directions dense / single "
+        "cell / single component;"
         " central differences at h, h/2, h/4 (h = 1e-2 relative or in log "
         "units); distinct = (mapping, case, source kinds, receiver kinds, "
         "noise kind, direction kind) that reached the oracle with all solves "
@@ -67,6 +70,14 @@ def run_case(rec, seed, k, i):
                                   ) == len(ps['frequencies']) else ps
     case['file_based'], case['named_frequencies'] = file_based, psn is not ps
     tmpdirs = []
+    # history: the observations of one source-frequency pair arrive later
+    # (written in place into the same survey, followed by clean('computed'));
+    # misfit and gradient reported afterwards belong to the full data set
+    npairs = len(ps['sources'])*len(ps['frequencies'])
+    staged = bool(npairs > 1 and r.random() < 0.4)
+    late = (int(r.integers(len(ps['sources']))),
+            int(r.integers(len(ps['frequencies']))))
+    case['staged_observations'] = staged
 
     def phi(over=None, want_grad=False):
         grid, model = simgen.build_model(ps, over)
@@ -75,7 +86,20 @@ def run_case(rec, seed, k, i):
         if file_based and want_grad:
             tmpdirs.append(tempfile.mkdtemp(prefix='vf-c07-'))
             kw['file_dir'] = tmpdirs[-1]
+        stage = staged and want_grad
+        if stage:
+            sv.data.observed[late[0], :, late[1]] = np.nan + 1j*np.nan
+            if not np.isfinite(sv.data.observed.data).any():
+                stage = False
+                sv.data.observed[...] = obs
         sim = simgen.simulation(sv, model, **kw)
+        if stage:
+            _ = sim.misfit
+            _ = sim.gradient
+            state['ok'] &= simgen.all_converged(sim)
+            sv.data.observed[...] = obs
+            sim.clean('computed')
+            rec.event('staged_observation_histories')
         m = float(sim.misfit)
         g = np.array(sim.gradient) if want_grad else None
         state['ok'] &= simgen.all_converged(sim)
@@ -191,7 +215,7 @@ def run_case(rec, seed, k, i):
                   tuple(sorted({(c['kind'], c['relative'])
                                 for c in ps['receivers']})),
                   ps['noise'], dkind, ps['nan_frac'] > 0, file_based,
-                  psn is not ps))
+                  psn is not ps, staged))
     for d_ in tmpdirs:
         shutil.rmtree(d_, ignore_errors=True)
     rec.extra_set('mappings', [ms['mapping']])
@@ -226,7 +250,8 @@ def run_batch(batch):
 
 def finalize(merged, tier):
     common.require_events(merged, {'richardson_checks': 80,
-                                   'convergence_order_checks': 100})
+                                   'convergence_order_checks': 100,
+                                   'staged_observation_histories': 10})
     sk = merged['events'].get('skipped_solver_not_converged', 0)
     if sk > 0.25*max(1, merged['n_cases']):
         merged['inconclusive'].append(
